@@ -509,8 +509,15 @@ class ExecSim(object):
         ev = None
         for u in uids:
             self.cancel_requested.setdefault(u, self.env.net.seq)
+        # a cancel request is addressed to all pilots: in a third of the
+        # histories it also names - first - a task this executor does not hold
+        # (it runs elsewhere, or it is done and collected already)
+        names = list(uids)
+        if self.case.get('seed', 0) % 3 == 0:
+            names = ['task.not_here.%04d' % (self.case['seed'] % 97)] + names
+            self.hits.add('cancel_names_foreign_uid_first')
         self.env.publish(rpc.CONTROL_PUBSUB, {'cmd': 'cancel_tasks',
-                                              'arg': {'uids': list(uids)}})
+                                              'arg': {'uids': names}})
         if not wait:
             return
         t0 = time.time()
